@@ -109,14 +109,21 @@ def parseGoAway (fh : FH) (p : Bytes) : R (Except Err Frame) :=
     let dbg ← sliceFrom p 8
     pure (.ok (.goAway fh (low31 last) code dbg))
 
+/-- the decision of parseWindowUpdateFrame once the 4 bytes are decoded -/
+def wuResult (fh : FH) (inc : Nat) : Except Err Frame :=
+  if inc == 0 then
+    (if fh.sid == 0 then .error (.conn cProtocol) else .error (.stream fh.sid cProtocol))
+  else .ok (.windowUpdate fh inc)
+
 def parseWindowUpdate (fh : FH) (p : Bytes) : R (Except Err Frame) :=
   if p.length != 4 then some (.error (.conn cFrameSize))
-  else do
-    let a ← sliceTo p 4; let v ← u32 a
-    let inc := low31 v
-    if inc == 0 then
-      (if fh.sid == 0 then pure (.error (.conn cProtocol)) else pure (.error (.stream fh.sid cProtocol)))
-    else pure (.ok (.windowUpdate fh inc))
+  else
+    match sliceTo p 4 with                       -- p[:4]
+    | none => none
+    | some a =>
+      match u32 a with                           -- binary.BigEndian.Uint32
+      | none => none
+      | some v => some (wuResult fh (low31 v))
 
 def parseHeaders (fh : FH) (p : Bytes) : R (Except Err Frame) :=
   if fh.sid == 0 then some (.error (.conn cProtocol))
